@@ -231,7 +231,7 @@ def run(ctx):
 
 def leg_m(ctx):
     # the same exhaustive run checks the clauses and prints the decision table (no history variable involved)
-    r = ctx.tlc('MC_Cors', 'MC_Cors.cfg', coverage=True, workers=8, timeout=ctx.pick(280, 1200))
+    r = ctx.tlc('MC_Cors', ctx.pick('MC_Cors.cfg', 'MC_CorsFull.cfg'), coverage=True, workers=8, timeout=ctx.pick(280, 2400))
     ctx.require_coverage(r, ['MakeEnable', 'MakeExplicit', 'AddCorsAgainRejected', 'XAddOther', 'Exchange'])
     rw = ctx.tlc('MC_Cors', 'MC_CorsWrong.cfg', workers=4, timeout=300, must_hold=False, count=False)
     if rw.violated != 'NoWildcardWithCredentials':
